@@ -127,6 +127,22 @@ impl DataLog {
             })
     }
 
+    /// Takes the requests parked on the log that `filter` reads
+    pub fn take_waiters(
+        &mut self,
+        filter: &Filter,
+    ) -> Option<VecDeque<(ConnectionId, DataRequest)>> {
+        // a shared subscription ($share/group/filter) reads the log of the plain filter
+        let log_filter = filter
+            .strip_prefix("$share/")
+            .and_then(|s| s.split_once('/'))
+            .map_or(filter.as_str(), |(_group, path)| path);
+        let data = self
+            .native
+            .get_mut(*self.filter_indexes.get(log_filter)?)?;
+        data.waiters.take()
+    }
+
     // TODO: Currently returning a Option<Vec> instead of Option<&Vec> due to Rust borrow checker
     // limitation
     pub fn matches(&mut self, topic: &str) -> Option<Vec<usize>> {
